@@ -340,6 +340,5 @@ def check_zipped_pairs(ctx, rule, cls_list, min_pairs=1):
                       f"the decoder rebuilds the mapping with zip(r['{ka}'], r['{kb}']): the encoder must list keys and values of one dict in one order; found "
                       f"{[(o[1], o[2]) if o else None for o in orders]}")
     if n < min_pairs:
-        from .report import AnalysisError
-        raise AnalysisError(f"{rule}: only {n} decoder(s) zipping two repr keys found (expected >= {min_pairs})")
+        ctx.defer(f"{rule}: only {n} decoder(s) zipping two repr keys found (expected >= {min_pairs})")
     return n
